@@ -600,7 +600,7 @@ impl State {
                 if let Entry::Constant(_) = &self.dict[i].entry {
                     i += 1;
                 } else {
-                    self.dict.swap_remove(i);
+                    self.dict.remove(i);
                 }
             }
             let is_building_fun = match self.flow_stack[prev.fs_len..].last() {
